@@ -511,6 +511,10 @@ class World:
                             args[k_] = bytearray(v_)
                         elif kind == "tuple":
                             args[k_] = tuple(v_)
+                        elif kind == "sequence":
+                            args[k_] = _Seq(v_)            # a user-defined (hashable) sequence object backed by a list the caller keeps changing
+                        elif kind == "generator":
+                            args[k_] = (x for x in list(v_))
                 obj = self.cls_of(tag)(**args)
         except Exception as e:
             out["ctor_exc"] = type(e).__name__ + ": " + str(e)[:100]
@@ -573,6 +577,8 @@ class World:
                         st["exc"] = "AttributeError" if isinstance(e, AttributeError) else type(e).__name__
                 elif a["op"] == "mutate_arg":
                     lst = args.get(a["name"])
+                    if isinstance(lst, _Seq):
+                        lst = lst.items
                     st["arg_type"] = type(lst).__name__
                     if isinstance(lst, (list, bytearray)):
                         if a["how"] == "append":
@@ -623,6 +629,22 @@ class World:
         return out
 
 
+class _Seq:
+    """A caller-side sequence type that is not a list: iterable, sized, indexable - and hashable, like every user-defined class."""
+
+    def __init__(self, items):
+        self.items = list(items)
+
+    def __iter__(self):
+        return iter(self.items)
+
+    def __len__(self):
+        return len(self.items)
+
+    def __getitem__(self, k):
+        return self.items[k]
+
+
 def main():
     src, inp, outp = sys.argv[1:4]
     job = json.load(open(inp))
@@ -634,14 +656,21 @@ def main():
         json.dump(res, open(outp, "w"))
         return
     import signal
+    try:
+        import resource
+        # a runaway loop in the code under test (a deserializer that stops consuming) must end in a MemoryError inside the case, not in
+        # the kernel killing this process
+        resource.setrlimit(resource.RLIMIT_AS, (6 << 30, 6 << 30))
+    except Exception:
+        pass
 
     def on_alarm(signum, frame):
-        raise TimeoutError("case did not terminate within 10 s")
+        raise TimeoutError("case did not terminate within 30 s")
     signal.signal(signal.SIGALRM, on_alarm)
     for c in job["cases"]:
         try:
             fn = {"ser": world.run_ser, "de": world.run_de, "rt": world.run_rt, "mut": world.run_mut}[c["kind"]]
-            signal.alarm(10)
+            signal.alarm(30)
             try:
                 res["results"].append(fn(c))
             finally:
